@@ -43,6 +43,19 @@ impl MinDev {
             rst_calls: 0,
         }
     }
+    pub fn queue_len(&self) -> usize {
+        match &self.errors {
+            Queue::Unbounded(q) => q.len(),
+            Queue::Bounded(q) => q.len(),
+        }
+    }
+    /// the last `n` items of the queue (all of it when shorter)
+    pub fn queue_tail(&self, n: usize) -> Vec<Error> {
+        match &self.errors {
+            Queue::Unbounded(q) => q.iter().skip(q.len().saturating_sub(n)).copied().collect(),
+            Queue::Bounded(q) => q.iter().skip(q.len().saturating_sub(n)).copied().collect(),
+        }
+    }
     pub fn queue_snapshot(&self) -> Vec<Error> {
         match &self.errors {
             Queue::Unbounded(q) => q.iter().copied().collect(),
